@@ -32,6 +32,9 @@ LSet(t) == IF IsSized(t) THEN {StaticSize(t)}
            ELSE {MinSize(t) + j * Align(t) : j \in 0..LSteps}
                 \cup {MinSize(t) + LSteps * Align(t) + k : k \in {1, Align(t) \div 2, Align(t) - 1} \ {0}}
                 \cup {RoomyMin(t), RoomyMin(t) + Align(t) + 1}
+                \* a FlexVec also on a slice that holds two sealed items and the terminator (cuts inside a later offset slot,
+                \* at an item boundary; slack between items)
+                \cup (IF t.k = "flex" THEN {MinSize(t) + 2 * (FlexOffsetSize(t) + CeilMul(MinSize(t.elem[1]), Align(t)))} ELSE {})
 
 (***************************************************************************)
 (* Header fields of an image.                                              *)
